@@ -291,10 +291,21 @@ def main(check, argv=None):
         for r in results:
             for case in r.mismatches:
                 m = check.replay(case)
+                tries = 0
+                while m is None and tries < 3:
+                    tries += 1
+                    m = check.replay(case)
                 if m is None:
-                    # not reproducible outside the worker: report as harness problem
-                    sys.stderr.write('HARNESS ERROR: recorded mismatch does not replay: %r\n' % (case,))
-                    return 2
+                    if getattr(check, 'unreproducible_is_violation', False):
+                        # isolation/history properties: a mismatch against the model that depends on
+                        # object identity, hashing or timing may not show again in a fresh replay; it
+                        # was still observed against the explicit oracle in the worker
+                        m = {'bucket': 'observed-in-worker-but-not-reproduced-by-replay',
+                             'note': 'the recorded case is saved; the violation depended on process state'}
+                    else:
+                        # not reproducible outside the worker: report as harness problem
+                        sys.stderr.write('HARNESS ERROR: recorded mismatch does not replay: %r\n' % (case,))
+                        return 2
                 b = m.get('bucket', 'mismatch')
                 buckets.setdefault(b, (case, m))
                 if len(buckets) >= 6:
